@@ -1,20 +1,7 @@
 // ======================================================================================
 // fragment matrix.rs - src/matrix_graph.rs under contract (property C04)
 // ======================================================================================
-use core::mem;
-use core::cmp;
 use core::hash::BuildHasher;
-
-// ---- std functions without a vstd specification: ASSUMED contracts (from the std documentation) ----
-pub assume_specification<T>[ core::mem::replace::<T> ](dest: &mut T, src: T) -> (r: T)
-    ensures r == *old(dest), *final(dest) == src;
-pub assume_specification<T: Default>[ core::mem::take::<T> ](dest: &mut T) -> (r: T)
-    ensures r == *old(dest), call_ensures(<T as Default>::default, (), *final(dest));
-// ASSUMED (std): `impl<T> From<T> for Option<T>` wraps in Some
-pub assume_specification<T>[ <Option<T> as From<T>>::from ](t: T) -> (r: Option<T>)
-    ensures r == Some(t);
-pub assume_specification<T: Ord>[ core::cmp::max::<T> ](a: T, b: T) -> (r: T)
-    ensures T::obeys_cmp_spec() ==> r == (if a.cmp_spec(&b) == Ordering::Greater { a } else { b });
 
 /// the number of cells of a lower-triangular matrix with n rows
 pub open spec fn tri_size(n: int) -> int { n * (n + 1) / 2 }
@@ -1109,7 +1096,7 @@ impl<N, E, S: BuildHasher, Ty: EdgeType, Null: Nullable<Wrapped = E>, Ix: IndexT
         }
 
         let ghost mid = *self;
-        let r =/*-*/ self.nodes.remove(a.index())/*+*/;
+        let r = {/*-*/ self.nodes.remove(a.index()) /*+*/};
         proof {
             assert forall|x: int, y: int| #[trigger] self.cell(x, y) == (if x == a.i() || y == a.i() { None } else { old(self).cell(x, y) }) by { assert(self.cell(x, y) == mid.cell(x, y)); }
             assert forall|x: int, y: int| #[trigger] self.has(x, y) implies self.nodes.live(x) && self.nodes.live(y) by { assert(self.cell(x, y) == mid.cell(x, y)); assert(old(self).has(x, y)); }
@@ -1161,7 +1148,7 @@ impl<N, E, S: BuildHasher, Ty: EdgeType, Null: Nullable<Wrapped = E>, Ix: IndexT
     {
         /*+*/proof { assert forall|y: int| !old(self).has(y, y) || old(self).nodes.live(y) by { } }
         let ghost o = *self;
-        let r =/*-*/ NodeIndex::new(self.nodes.add(weight))/*+*/;
+        let r = {/*-*/ NodeIndex::new(self.nodes.add(weight)) /*+*/};
         proof {
             assert forall|x: int, y: int| #[trigger] self.cell(x, y) == o.cell(x, y) by { }
             assert forall|x: int, y: int| #[trigger] self.has(x, y) implies self.nodes.live(x) && self.nodes.live(y) by { assert(o.has(x, y)); }
@@ -1188,7 +1175,7 @@ impl<N, E, S: BuildHasher, Ty: EdgeType, Null: Nullable<Wrapped = E>, Ix: IndexT
             return Err(MatrixError::NodeIxLimit);
         }
         /*+*/let ghost o = *self;
-        let r =/*-*/ Ok(NodeIndex::new(self.nodes.add(weight)))/*+*/;
+        let r = {/*-*/ Ok(NodeIndex::new(self.nodes.add(weight))) /*+*/};
         proof {
             assert forall|x: int, y: int| #[trigger] self.cell(x, y) == o.cell(x, y) by { }
             assert forall|x: int, y: int| #[trigger] self.has(x, y) implies self.nodes.live(x) && self.nodes.live(y) by { assert(o.has(x, y)); }
